@@ -68,4 +68,57 @@ def verifyCommit (verify : Verify) (vals : List Val) (chain : List UInt8) (bid :
     | .error e => .error e
     | .ok tallied => if verifyCommitAccepts tallied (totalPower vals) then .ok () else .error .power
 
+/-- `ValidatorSet.GetByAddress` on a set sorted by distinct addresses: the validator with that address -/
+def findByAddr (vals : List Val) (a : List UInt8) : Option Val := vals.find? (fun v => v.addr = a)
+
+/-- the slot loop of `VerifyCommitAny`: the validator is looked up by the ADDRESS WRITTEN IN THE PRECOMMIT (unknown
+addresses are skipped); nothing remembers which validators were already counted -/
+def tallyLoopAny (verify : Verify) (chain : List UInt8) (bid : BlockID) (h : Nat) (r : Int) (vals : List Val) :
+    List (Option Vote) → Int → Except VErr Int
+  | [], acc => .ok acc
+  | none :: ps, acc => tallyLoopAny verify chain bid h r vals ps acc
+  | some v :: ps, acc =>
+    if v.height ≠ h then .error .height
+    else if v.round ≠ r then .error .round
+    else if v.type ≠ typePrecommit then .error .type
+    else match findByAddr vals v.addr with
+      | none => tallyLoopAny verify chain bid h r vals ps acc
+      | some val =>
+        if !verify val.key (msgOf chain v) v.sig then .error .sig
+        else if bid ≠ v.bid then tallyLoopAny verify chain bid h r vals ps acc
+        else tallyLoopAny verify chain bid h r vals ps (wrapI64 (acc + val.power))
+
+/-- `ValidatorSet.VerifyCommitAny` (no caller in the tree; exported) -/
+def verifyCommitAny (verify : Verify) (vals : List Val) (chain : List UInt8) (bid : BlockID) (h : Nat) (c : Commit) :
+    Except VErr Unit :=
+  if vals.length ≠ c.precommits.length then .error .size
+  else if h ≠ height c then .error .height
+  else
+    match tallyLoopAny verify chain bid h (round c) vals c.precommits 0 with
+    | .error e => .error e
+    | .ok tallied => if verifyCommitAccepts tallied (totalPower vals) then .ok () else .error .power
+
+/-- `reconstructLastCommit` (consensus/state.go): after a restart the last commit is rebuilt by feeding the stored seen
+commit's precommits to a fresh precommit vote set of the LAST validators; `none` = the node panics (a vote that is not
+added, or no +2/3 at the end), `some none` = nothing to rebuild at height 0 -/
+def feedAll (verify : Verify) : VS → List (Option Vote) → Option VS
+  | s, [] => some s
+  | s, none :: ps => feedAll verify s ps
+  | s, some v :: ps =>
+    match addVote verify s v with
+    | some r => if r.added && decide (r.err = AddErr.none) then feedAll verify r.st ps else none
+    | none => none
+
+def reconstruct (verify : Verify) (chain : List UInt8) (h : Nat) (vals : List Val) (seen : Option Commit) : Option (Option VS) :=
+  if h = 0 then some none
+  else match seen with
+    | none => none                       -- nil commit: `seenCommit.Round()` dereferences it
+    | some c =>
+      match newVS chain h (round c) typePrecommit vals with
+      | none => none
+      | some s0 =>
+        match feedAll verify s0 c.precommits with
+        | none => none
+        | some s => if hasTwoThirdsMajority s then some (some s) else none
+
 end Model.Commit
